@@ -137,7 +137,7 @@ pub fn run(ctx: &Ctx) -> Outcome {
                                         }
                                     }
                                     let inp = &data[h * g..l];
-                                    let mut ob = if kind == Kind::InPlace { inp.to_vec() } else { prefill[..t].to_vec() };
+                                    let mut ob = if kind.in_place() { inp.to_vec() } else { prefill[..t].to_vec() };
                                     let r = obj.oneshot(kind, inp, &mut ob);
                                     ensure!(r == Some(Ok(())), "MACHINERY", "harness: one-shot call on an AsyncStreamCipher type");
                                     out.extend(ob);
